@@ -308,7 +308,10 @@ def a3(fb, chk):
         if row["body"]:
             val = any(a[0] == "ok" and a[1][0] == "call" and a[1][1] == "extract_msg_body" for a in atoms)
         else:
-            val = any(a[0] == "ok" and a[1][0] == "call" and a[1][1] == "check_msg_size" for a in atoms)
+            # a request without body: the size check is made against 0 (the expected size is the constant, not the size
+            # that happened to arrive)
+            val = any(a[0] == "ok" and a[1][0] == "call" and a[1][1] == "check_msg_size" and len(a[1][2]) >= 4 and
+                      const_eval(fb, m.sym, a[1][2][3]) == 0 for a in atoms)
         chk.check(okh and val, "A3", key, "handler %s under size/validity facts" % c["name"],
                   "arm %s calls %s (protocol: %s) with size/validity fact present: %s" % (code, c["name"], row["handler"], val),
                   fr.loc(t["line"]))
